@@ -50,3 +50,65 @@ package object
 //@   ensures [nil] !found ==> n == nil
 //@   loop 0:
 //@     invariant forall k int :: 0 <= k && k < it ==> children[k].Name != searchName
+
+// ---- object store: '<kind> <length>\0<bytes>', id = SHA-1 of that, file = zlib of that at objects/xx/yyyy...
+
+//@ pred kindName(t) := ite(t == BlobObject, "blob", ite(t == TreeObject, "tree", ite(t == CommitObject, "commit", ite(t == TagObject, "tag", "undefined"))))
+//@ pred isKind(t) := t == BlobObject || t == TreeObject || t == CommitObject || t == TagObject
+//@ pred objHeader(t, n) := kindName(t) + " " + fmtd(n, 0) + "\x00"
+//@ pred objBytes(t, d) := objHeader(t, len(d)) + d
+//@ pred objId(t, d) := sha1(objBytes(t, d))
+//@ pred objDir(root, h) := pjoin(pjoin(root, "objects"), bsub(hex(h), 0, 2))
+//@ pred objPath(root, h) := pjoin(objDir(root, h), bsub(hex(h), 2, len(hex(h))))
+//@ pred stored(f, root, h, t, d) := isFile(f, objPath(root, h)) && content(f, objPath(root, h)) == zlibEnc(objBytes(t, d))
+
+//@ func NewObject
+//@   returns o, err
+//@   ensures [ok] err == nil && o != nil && fresh(o)
+//@   ensures [id] {C01,C04,C13} string(o.Hash) == objId(objType, string(data))
+//@   ensures [fields] {C01} o.Type == objType && o.Size == len(data) && string(o.Data) == string(data)
+
+//@ func Object.Header
+//@   returns hd
+//@   pure
+//@   ensures [hdr] {C01} string(hd) == objHeader(o.Type, o.Size)
+
+//@ func Object.compress
+//@   returns buf, err
+//@   trusted
+//@   pure
+//@   ensures [zlib] err == nil ==> bufBytes(buf) == zlibEnc(objHeader(o.Type, o.Size) + string(o.Data))
+
+//@ func Object.Write
+//@   returns err
+//@   modifies fs
+//@   requires [id] len(o.Hash) == 20 && o.Size == len(o.Data)
+//@   ensures [stored] {C01,C02,C03,C04} err == nil ==> stored(fs, rootGoitPath, o.Hash, o.Type, string(o.Data))
+//@   ensures [frame] {C01,C03,C04} forall q string :: q != objPath(rootGoitPath, o.Hash) && q != objDir(rootGoitPath, o.Hash) ==> fs[q] == old(fs)[q]
+//@   ensures [dir] {C03} isDir(old(fs), objDir(rootGoitPath, o.Hash)) ==> isDir(fs, objDir(rootGoitPath, o.Hash))
+
+//@ pred hdrText(r, p0) := bsub(rdContent(r), p0, indexOfByte(rdContent(r), 0, p0))
+//@ pred isKindName(s) := s == "blob" || s == "tree" || s == "commit" || s == "tag"
+//@ pred kindOfName(s) := ite(s == "blob", BlobObject, ite(s == "tree", TreeObject, ite(s == "commit", CommitObject, ite(s == "tag", TagObject, UndefinedObject))))
+
+//@ func readHeader
+//@   returns t, size, err
+//@   modifies $rdpos, $hashdata
+//@   requires [reader] r != nil && 0 <= rdPos(r) && rdPos(r) <= len(rdContent(r))
+//@   ensures [op-accept] {C01} contains(hdrText(r, old(rdPos(r))), " ") && isKindName(splitHead(hdrText(r, old(rdPos(r))), " ")) && startsWithInt(splitTail(hdrText(r, old(rdPos(r))), " ")) ==> err == nil
+//@   ensures [op-result] {C01} err == nil ==> contains(hdrText(r, old(rdPos(r))), " ") && t == kindOfName(splitHead(hdrText(r, old(rdPos(r))), " ")) && size == atoi(splitTail(hdrText(r, old(rdPos(r))), " "))
+//@   ensures [op-pos] {C01} rdPos(r) == ite(indexOfByte(rdContent(r), 0, old(rdPos(r))) < len(rdContent(r)), indexOfByte(rdContent(r), 0, old(rdPos(r))) + 1, len(rdContent(r)))
+//@   ensures [pos] rdPos(r) <= len(rdContent(r)) && old(rdPos(r)) <= rdPos(r)
+//@   ensures [tee] {C01,C19} rdTee(r) != 0 ==> hashData(rdTee(r)) == old(hashData(rdTee(r))) + bsub(rdContent(r), old(rdPos(r)), rdPos(r))
+//@   ensures [others] forall q io.Reader :: q != r ==> rdPos(q) == old(rdPos(q))
+
+//@ func GetObject
+//@   returns o, err
+//@   modifies $rdpos, $hashdata
+//@   requires [hashlen] len(hash) >= 1
+//@   ensures [roundtrip] {C01,C05} forall t Type, d string :: isKind(t) && stored(fs, rootGoitPath, hash, t, d) && string(hash) == objId(t, d) ==> err == nil && o != nil && o.Type == t && string(o.Data) == d && o.Size == len(d)
+//@   ensures [size-consistent] {C01,C19} err == nil ==> o != nil && o.Size == len(o.Data)
+//@   ensures [hash==requested] {C19,C01} err == nil ==> string(o.Hash) == string(hash)
+//@   ensures [absent] {C01} isAbsent(fs, objPath(rootGoitPath, hash)) ==> err != nil
+//@   ensures [fresh] err == nil ==> fresh(o)
+//@   ensures [nil] err != nil ==> o == nil
